@@ -11,7 +11,9 @@
     ("since the child template doesn't define the footer block, the value from the parent template is used").
   * `super()` inside the i-th definition renders the next less-derived one; `super.super()` skips a level; absent
     → undefined.  `self.b()` renders what an unscoped placeholder `b` renders.
-  * a block does not see loop variables of the place where it stands unless the placeholder is `scoped`
+  * a block does not see loop / with variables of the place where it stands unless the placeholder is `scoped`; then it
+    sees what is visible at the placeholder, the innermost binding of a name first (`loop` is the innermost loop's;
+    the model's rule for when a loop materialises `loop` is shared, `extendedLoop`)
     ("When overriding a block, the scoped modifier does not have to be provided").
   * a `required` block "must be overridden at some point … cannot be rendered directly": a placeholder or a
     `self.b()` whose most-derived definition is a `required` declaration fails with TemplateRuntimeError; `super()`
@@ -50,8 +52,16 @@ def piece (chain : List Tpl) (callee : Callee) (ctx : Vars) (cur : Option (Name 
     match (defs chain b).head? with
     | none => .error .undefined
     | some d => if d.req then .error .required else callee ctx b 0   -- "cannot be rendered directly"
-  | .forLoop x items body => concatM (items.map fun i => list chain callee ctx cur ((x, i) :: loc) body)
+  | .forLoop x items body =>
+    -- the innermost binding of a name is the visible one; `loop` is the innermost loop's
+    concatM (items.zipIdx.map fun (i, k) =>
+      list chain callee ctx cur (loopScope (extendedLoop body) x i k items.length ++ loc) body)
   | .ifc f body => if truthy loc ctx f then list chain callee ctx cur loc body else .ok []
+  | .withv x v body => list chain callee ctx cur ((x, v) :: loc) body
+  | .loopAttr a =>
+    match (loc ++ ctx).lookup ("loop." ++ a) with
+    | some v => .ok v
+    | none => .error .undefined
   | .ext _ => .error .syntax
 def list (chain : List Tpl) (callee : Callee) (ctx : Vars) (cur : Option (Name × Nat)) (loc : Vars) :
     List Piece → Res
@@ -104,6 +114,7 @@ mutual
 def quietP : Piece → Bool
   | .ext _ => false
   | .forLoop _ _ body => countExtL body == 0
+  | .withv _ _ body => countExtL body == 0
   | .ifc _ body => quietL body
   | _ => true
 def quietL : List Piece → Bool
